@@ -60,6 +60,50 @@ type Term struct {
 	id    int
 	store *TermStore
 	sent  bool // define-fun emitted to the solver
+	// single-variable analysis cache: 0 unknown, 1 no vars, 2 exactly one var (onlyVar), 3 several / UF
+	varState uint8
+	onlyVar  *Term
+}
+
+// soleVar returns the only variable t depends on (nil if none, several, or a UF occurs).
+func (t *Term) soleVar() *Term {
+	if t.varState == 0 {
+		switch t.op {
+		case OpConst:
+			t.varState = 1
+		case OpVar:
+			t.varState, t.onlyVar = 2, t
+		case OpUF:
+			t.varState = 3
+		default:
+			st := uint8(1)
+			var v *Term
+			for _, a := range t.args {
+				a.soleVar()
+				switch a.varState {
+				case 2:
+					if v == nil {
+						v, st = a.onlyVar, 2
+					} else if v != a.onlyVar {
+						st = 3
+					}
+				case 3:
+					st = 3
+				}
+				if st == 3 {
+					break
+				}
+			}
+			t.varState = st
+			if st == 2 {
+				t.onlyVar = v
+			}
+		}
+	}
+	if t.varState == 2 {
+		return t.onlyVar
+	}
+	return nil
 }
 
 type TermStore struct {
